@@ -369,13 +369,25 @@ func ruleHeaderLayout(c *Ctx) {
 					})
 				}
 			case *ast.CallExpr:
-				if CalleeName(enc.Info, x) == "builtin.copy" && len(x.Args) == 2 {
-					walkAll(x.Args[0], func(m ast.Node) bool {
-						if k := fieldKeyNode(enc.Info, m); strings.HasPrefix(k, "utils/io.Header.") {
-							written[strings.TrimPrefix(k, "utils/io.Header.")] = true
+				// copy(hp.Field[:], …) or a helper that is handed the field's slice to fill
+				nm := CalleeName(enc.Info, x)
+				isHelper := c.P.Funcs[nm] != nil
+				if (nm == "builtin.copy" && len(x.Args) == 2) || isHelper {
+					args := x.Args
+					if nm == "builtin.copy" {
+						args = x.Args[:1]
+					}
+					for _, a := range args {
+						if _, isSlice := unparen(a).(*ast.SliceExpr); !isSlice && nm != "builtin.copy" {
+							continue
 						}
-						return true
-					})
+						walkAll(a, func(m ast.Node) bool {
+							if k := fieldKeyNode(enc.Info, m); strings.HasPrefix(k, "utils/io.Header.") {
+								written[strings.TrimPrefix(k, "utils/io.Header.")] = true
+							}
+							return true
+						})
+					}
 				}
 			}
 			return true
